@@ -11,6 +11,7 @@ Alphabet (gridmc): every A = B B^T with B in {-1,0,1}^{n x r}, r <= n (generated
 D in {1e-3,1,1e3}^n, x every threshold in {1e-2,1e-6,1e-10}.
 """
 
+import functools
 import itertools
 import warnings
 
@@ -25,7 +26,7 @@ TECHNIQUE = ("exhaustive enumeration of all Gram matrices B B^T over {-1,0,1} (n
 
 THRESHOLDS = [1e-2, 1e-6, 1e-10]
 SCALE_LETTERS = [1.0, 1e-3, 1e3]
-REG_SLACK = 1e-10          # the NumPy routine divides by sqrt(delta + 1e-10): documented regulariser
+REG_SLACK = 1e-10          # the NumPy routine divides by sqrt(delta + 1e-10): allowance per accepted vector
 ROUND = 1e-12              # round-off allowance relative to sqrt(A_ii A_jj)
 EXACT_TOL = 1e-9           # "exact" for float64 algebra, relative to sqrt(A_ii A_jj)
 FD_H = [1e-3, 5e-4, 2.5e-4]  # h-ladder; tangents are congruence-scaled like the matrix (entries of B B^T are O(1))
@@ -47,6 +48,7 @@ def rank_one_letters(n):
     return out
 
 
+@functools.lru_cache(maxsize=None)
 def gram_catalogue(n):
     """Every distinct B B^T, B in {-1,0,1}^{n x r}, r <= n: list of (int matrix, number of columns, rank),
     ordered simplest first."""
@@ -138,7 +140,9 @@ def np_case(A, thr):
         return True, "pyscf_interface.modified_cholesky:bad-shape", dict(shape=list(L.shape))
     rec = L.T @ L
     err = np.abs(A - rec)
-    tol = thr + REG_SLACK + ROUND * elem_scale(A)
+    # the routine divides every accepted vector by sqrt(delta + 1e-10): each of the <= n vectors leaves a
+    # positive semi-definite residue of at most 1e-10 per element that no later pivot is obliged to remove
+    tol = thr + n * REG_SLACK + ROUND * elem_scale(A)
     ok = np.all(np.isfinite(rec)) and np.all(err <= tol)
     if ok:
         return False, "", dict(nvec=L.shape[0])
@@ -458,22 +462,25 @@ def _install_spy():
     orig = lu.modified_cholesky
     rec, static = [], []
 
-    def _rec(mat, mat_t, out, out_t):
+    def _rec(norb, nchol, mat, mat_t, out, out_t):
         rec.append((np.array(mat), np.array(mat_t), np.array(out), np.array(out_t)))
+        static.append((norb, nchol, tuple(np.shape(mat))))
 
     def spy(mat, norb, nchol):
-        static.append((int(norb), int(nchol), tuple(mat.shape)))
+        from functools import partial
+
+        _rec_s = partial(_rec, int(norb), int(nchol))  # the static arguments travel with every execution
 
         @jax.custom_jvp
         def inner(m):
             out = orig(m, norb, nchol)
-            jax.debug.callback(_rec, m, jnp.zeros_like(m), out, jnp.zeros_like(out))
+            jax.debug.callback(_rec_s, m, jnp.zeros_like(m), out, jnp.zeros_like(out))
             return out
 
         @inner.defjvp
         def inner_jvp(p, t):
             out, out_t = jax.jvp(lambda m: orig(m, norb, nchol), p, t)
-            jax.debug.callback(_rec, p[0], t[0], out, out_t)
+            jax.debug.callback(_rec_s, p[0], t[0], out, out_t)
             return out, out_t
 
         return inner(mat)
@@ -729,7 +736,7 @@ def run(ctx):
                 "every n_chol-subset of the symmetric unit basis and dense sets as Cholesky vectors, every unit tensor tangent "
                 "(finite) and every 8-fold symmetric basis tangent (vs central differences); a state is one (routine, matrix, "
                 "scaling, threshold | tangent); non-trivial & distinct = distinct non-zero Gram matrices / molecules / ERI letters")
-    ctx.assume("float64: 'within the threshold' is read as threshold + 1e-10 (the NumPy routine's own regulariser) + 1e-12*sqrt(A_ii A_jj) "
+    ctx.assume("float64: 'within the threshold' is read as threshold + n*1e-10 (the NumPy routine's own regulariser, once per vector) + 1e-12*sqrt(A_ii A_jj) "
                "round-off; 'exact' as 1e-9*sqrt(A_ii A_jj)")
     ctx.assume("the derivative statement is checked where the fixed-count routine is differentiable: same pivot sequence (margin 5%) at A and "
                "A +- h T and a positive definite pivot block, decided on the inputs by a reference pivoted Cholesky; elsewhere only "
